@@ -332,6 +332,18 @@ def hand_written():
                               {"out": "Z", "oidx": [[[None, "m"]]], "terms": [{"take": None, "factors": [T("U2", "m"), T("C", "k", "m")]}]}],
                   "mapping": {"rank-order": {}, "loop-order": {},
                               "partitioning": {"T": {"K": ["uniform_shape(4)"]}, "U2": {"K": ["uniform_shape(2)"], "M": ["nway_shape(3)"]}}}})
+    # an input used by two Einsums, stored in an order the first Einsum's default loop order has to swizzle, nothing mapped:
+    # the declared rank order must still be what the second Einsum starts from
+    specs.append({"decl": {"T": ["M", "N"], "A": ["K", "M"], "B": ["K", "N"], "Z": ["M"], "C": ["M"]},
+                  "einsums": [{"out": "T", "oidx": [[[None, "m"]], [[None, "n"]]], "terms": [{"take": None, "factors": [T("A", "k", "m"), T("B", "k", "n")]}]},
+                              {"out": "Z", "oidx": [[[None, "m"]]], "terms": [{"take": None, "factors": [T("A", "k", "m"), T("C", "m")]}]}],
+                  "mapping": {"rank-order": {}, "loop-order": {}, "partitioning": {}}})
+    # the same input shared by three Einsums, the middle one with an explicit loop order only
+    specs.append({"decl": {"T": ["N"], "A": ["K", "N", "M"], "B": ["M"], "U2": ["M"], "Z": ["K"]},
+                  "einsums": [{"out": "T", "oidx": [[[None, "n"]]], "terms": [{"take": None, "factors": [T("A", "k", "n", "m"), T("B", "m")]}]},
+                              {"out": "U2", "oidx": [[[None, "m"]]], "terms": [{"take": None, "factors": [T("A", "k", "n", "m"), T("T", "n")]}]},
+                              {"out": "Z", "oidx": [[[None, "k"]]], "terms": [{"take": None, "factors": [T("A", "k", "n", "m"), T("U2", "m")]}]}],
+                  "mapping": {"rank-order": {}, "loop-order": {"U2": ["N", "M", "K"]}, "partitioning": {}}})
     for s in specs:
         s["want_loop_order"] = [False] * len(s["einsums"])
         s["info"] = [{"ranks": None, "shape": {"hand": 1}} for _ in s["einsums"]]
